@@ -371,7 +371,7 @@ def _extra(prop, focus, flag, q, t, sn):
 
 
 for _p, _f in (('C02', 'cooldown'), ('C03', 'restore'), ('C04', 'autodisc'), ('C11', 'dry'), ('C12', 'multi')):
-    _extra(_p, _f, '-realctor', 24, 240, 48)
+    _extra(_p, _f, '-realctor', 32, 320, 64)
 for _p, _f in (('C05', 'up'), ('C01', 'churn'), ('C09', 'churn'), ('C10', 'churn'), ('C03', 'up')):
     _extra(_p, _f, '-slow', 16, 160, 32)
 
